@@ -557,6 +557,12 @@ func propSpecs() map[string]*PropSpec {
 		}
 		cm(c06, "H_C06_esc_ctx", 4, int64(ctx), "4 arbitrary backslash-escaped ASCII punctuation bytes in a "+nm, "thorough")
 	}
+	for f, nm := range []string{"a bullet item", "a block quote", "an ordered item", "a block quote inside a bullet item"} {
+		for k := int64(1); k <= 2; k++ {
+			cm(c06, "H_C06_verbatim_in", k, int64(f), fmt.Sprintf("fenced code inside %s with %d free content bytes (incl. a leading TAB)", nm, k), "quick")
+		}
+		cm(c06, "H_C06_verbatim_in", 3, int64(f), "fenced code inside "+nm+" with 3 free content bytes", "thorough")
+	}
 	for f, nm := range []string{"top level", "'> '", "' > '", "a '- ' list item"} {
 		cm(c06, "H_C06_codetrail", int64(f), 0, "indented code followed by a whitespace-only line of three free bytes over {space, tab}, a blank line and a paragraph, behind "+nm, "quick")
 	}
